@@ -288,6 +288,15 @@ let handle_op (h : hist) (line : string) =
        if impl_ok then report_spec ~prop:"C19" ~pred:"impossible_size_refused" ~detail:ires
        else if impl_panic && mi.fallible then report_spec ~prop:"C19" ~pred:"impossible_size_is_an_error_not_a_panic" ~detail:ires
      | _ -> ());
+    (* C18: a new chunk is as large as the limit and the policy allow: the first size the
+       implementation asks the global allocator for is not smaller than the first size the policy
+       (doubling, the request, the default; halved only while the limit forbids) asks for *)
+    (if synced_at_start then
+       match outp.o_reqs, o.reqs with
+       | (ps, _) :: _, (is, _, _) :: _ when N.ltb is ps ->
+         report_spec ~prop:"C18" ~pred:"new_chunk_as_large_as_limit_and_policy_allow"
+           ~detail:(Printf.sprintf "asked=%s policy=%s" (string_of_n is) (string_of_n ps))
+       | _ -> ());
     (* C07, second clause: a request (allocation, grow, realloc) that fits in the space left in the
        current chunk succeeds whatever the limit: the model serves it without a request to the global
        allocator, the implementation (which made no request either) refuses it, and a limit is set *)
